@@ -37,10 +37,12 @@ func runC19(l *core.Ledger) {
 	l.Rule("C19-S2", "MultiSorter.Less combines the keys lexicographically: returns true on less(p,q), false on less(q,p) for all keys but the last in order from key 0, and the last key's less(p,q) otherwise; p,q = elements i,j of the slice being sorted")
 	l.Rule("C19-S3", "Sort stores its argument and calls sort.Sort on the receiver; Swap exchanges exactly elements i and j; Len is the length of that slice; no other function writes MultiSorter.nodes")
 	l.Rule("C19-S5", "what the keys project is what the node is: RawNode.Port (the Port key's projection) returns the port that net.SplitHostPort gives for the node's address (or a field filled from it / from the resolved TCP address); the LastNodeError key orders by the documented LastErr() status: its projection is LastErr() itself or the expression LastErr() returns")
+	l.Rule("C19-S6", "the provided keys are total over nodes built through the public constructors: a node has no channel before it is added to a manager and under WithNoConnect, so every use of a node's channel pointer reachable from a key (as a receiver or for a field) is dominated by a nil test of it")
 	c19S1(l, r)
 	c19S2(l, r)
 	c19S3(l, r)
 	c19S5(l, r)
+	c19S6(l, r)
 }
 
 // ---------------------------------------------------------------- S1
@@ -1112,5 +1114,87 @@ func c19S5(l *core.Ledger, r *rt) {
 		if len(projs) > 0 {
 			l.Check(bad == "", "C19-S5", "gorums.LastNodeError/projection", k.pos, "orders by LastErr()", "the LastNodeError key is documented to order nodes by their LastErr() status, but it looks at "+bad+", which is not what LastErr() returns: a node can report an error through LastErr() and still be ordered with the error-free nodes (or the other way round)")
 		}
+	}
+}
+
+// ---------------------------------------------------------------- S6
+
+// c19S6: nil-safety of the keys on the one RawNode field that public
+// construction can leave nil and that a key looks through: channel.
+func c19S6(l *core.Ledger, r *rt) {
+	init := r.spkg.Func("init")
+	if init == nil {
+		return
+	}
+	// the key function literals are anonymous functions of the package initialiser
+	keyFns := map[string]*ssa.Function{}
+	for _, k := range sortKeys(r) {
+		for _, an := range init.AnonFuncs {
+			if an.Pos() == k.lit.Pos() || an.Pos() == k.lit.Type.Func {
+				keyFns[k.name] = an
+			}
+		}
+	}
+	if len(keyFns) == 0 {
+		l.Unknown("C19-S6", "anchor/keys", token.NoPos, "the key functions were not found among the package initialiser's function literals")
+		return
+	}
+	var names []string
+	for n := range keyFns {
+		names = append(names, n)
+	}
+	sort.Strings(names)
+	for _, name := range names {
+		seen := map[*ssa.Function]bool{}
+		bad := ""
+		var badPos token.Pos
+		var visit func(f *ssa.Function, depth int)
+		visit = func(f *ssa.Function, depth int) {
+			if f == nil || seen[f] || depth > 3 || len(f.Blocks) == 0 {
+				return
+			}
+			seen[f] = true
+			sx.AllInstrs(f, func(nd sx.Node, in ssa.Instruction) {
+				isChanPtr := func(v ssa.Value) bool {
+					if !isNamed(v.Type(), core.RootModule, "channel") {
+						return false
+					}
+					return sx.All(sx.Origins(v), func(o sx.Origin) bool {
+						return o.Kind == sx.KField && o.Field != nil && o.Field.Name() == "channel"
+					})
+				}
+				var used ssa.Value
+				switch x := in.(type) {
+				case *ssa.FieldAddr:
+					if isChanPtr(x.X) {
+						used = x.X
+					}
+				case *ssa.Call:
+					if cs := x.Call.StaticCallee(); cs != nil && cs.Signature.Recv() != nil && len(x.Call.Args) > 0 && isChanPtr(x.Call.Args[0]) {
+						used = x.Call.Args[0]
+					}
+				}
+				guarded := func(v ssa.Value) bool {
+					if sx.KnownNonNil(v, nd.B) {
+						return true
+					}
+					// a test of another load of the same field of the same node
+					want := sx.OriginsString(sx.Origins(v))
+					edges := nilTestEdgesOn(f, func(x ssa.Value) bool { return isChanPtr(x) && sx.OriginsString(sx.Origins(x)) == want }, true)
+					return edgesDominate(f, edges, nd)
+				}
+				if used != nil && !guarded(used) && bad == "" {
+					bad = fnKey(f)
+					badPos = sx.PosOf(in)
+				}
+				if c, isCall := in.(*ssa.Call); isCall {
+					if cs := c.Call.StaticCallee(); cs != nil && inRepo(cs) && cs.Signature.Recv() != nil && isNamed(cs.Signature.Recv().Type(), core.RootModule, "RawNode") {
+						visit(cs, depth+1)
+					}
+				}
+			})
+		}
+		visit(keyFns[name], 0)
+		l.Check(bad == "", "C19-S6", "gorums."+name+"/total", badPos, "no use of a node's channel without a nil test", "the "+name+" key uses a node's channel (in "+bad+") without testing it for nil: a node that has not been added to a manager yet, or one of a manager created with WithNoConnect, has no channel, and sorting such nodes by this key panics")
 	}
 }
